@@ -120,9 +120,13 @@ func expand(v string) string {
 
 func pick(r *rand.Rand) string { return blanks[r.Intn(len(blanks))] }
 
-// layout chooses the blanks and line ends of a document.
-func layout(lines []Line, r *rand.Rand) {
+// layout chooses the blanks and line ends of a document (mode "": by seed; "plain": no blanks; "inline": every
+// optional line break at a tag left out, blanks by seed).
+func layout(lines []Line, r *rand.Rand, mode string) {
 	plain := r.Intn(4) == 0
+	if mode != "" {
+		plain = mode == "plain"
+	}
 	eol := "\n"
 	if !plain && r.Intn(6) == 0 {
 		eol = "\r\n"
@@ -142,16 +146,16 @@ func layout(lines []Line, r *rand.Rand) {
 			l.Post = pick(r)
 		}
 	}
-	if len(lines) > 0 && r.Intn(4) == 0 {
+	if len(lines) > 0 && (r.Intn(4) == 0 || mode == "inline") {
 		lines[len(lines)-1].Eol = ""
 	}
 	// inline layout: tags delimit themselves, so a line break is optional after a tag and before a tag
 	// (<a>k=v</a>, <a><b>, </b></a>); chosen for a fifth of the documents, per line with p = 1/2
-	if r.Intn(5) == 0 {
+	if r.Intn(5) == 0 || mode == "inline" {
 		for i := range lines {
 			tag := lines[i].T == "open" || lines[i].T == "close"
 			nextTag := i+1 < len(lines) && (lines[i+1].T == "open" || lines[i+1].T == "close")
-			if (tag || nextTag) && r.Intn(2) == 0 {
+			if (tag || nextTag) && (r.Intn(2) == 0 || mode == "inline") {
 				lines[i].Eol = ""
 				if !tag {
 					lines[i].Trail = "" // keep the value's end at the tag
@@ -409,7 +413,8 @@ func shared(c *conf.Conf, rec *Rec) (out []string) {
 }
 
 type fixedDoc struct {
-	Fixed bool   `json:"fixed"`
+	Fixed bool   `json:"fixed"` // the lines carry their spacing (replay); otherwise Lay names the layout to apply
+	Lay   string `json:"lay"`
 	API   string `json:"api"`
 	Mut   string `json:"mut"`
 	Lines []Line `json:"lines"`
@@ -454,11 +459,15 @@ func cmdDocs(args []string) error {
 			if fd.Mut != "" {
 				forced = fd.Mut
 			}
+			if !fd.Fixed {
+				layout(rec.Lines, r, fd.Lay)
+				rec.API = []string{"string", "bytes", "string", "bytes", "file"}[r.Intn(5)]
+			}
 		} else {
 			if err := json.Unmarshal(raw, &rec.Lines); err != nil {
 				return fmt.Errorf("doc %d: %v", id, err)
 			}
-			layout(rec.Lines, r)
+			layout(rec.Lines, r, "")
 			rec.API = []string{"string", "bytes", "string", "bytes", "file"}[r.Intn(5)]
 		}
 		rec.Text = render(rec.Lines)
